@@ -223,6 +223,9 @@ func (s *qSim) c19Op(c *c19State, op qOp) {
 	if removedChild != nil && removedChild.Parent != extension.RootQuotaName {
 		r.Tag("guarantee-gate-child-removed")
 	}
+	if removedChild != nil && op.K == "quota_reparent" && len(s.st.children(op.Q)) > 0 {
+		r.Tag("guarantee-gate-parent-reparented")
+	}
 	r.OpDone()
 	r.Sample("%s q=%s p=%s n=%s parent=%s", op.K, op.Q, op.P, op.N, op.Parent)
 	r.Event("api %s %s%s%s", op.K, op.Q, op.P, op.N)
@@ -330,19 +333,29 @@ func (s *qSim) c19Startup() *Plugin {
 	f := newPlugin(s.cfg)
 	// step 1: the ElasticQuota informer's initial list through the registered handler, any order (a child
 	// before its parent included), possibly with repeats
-	qn := s.c19Shuffle(sortedNames(s.st.quotas))
+	stored := map[string]*mQuota{} // every ElasticQuota object of the store, the built-in quotas' objects included
+	for n, q := range s.st.quotas {
+		stored[n] = q
+	}
+	for n, q := range s.st.builtin {
+		stored[n] = q
+	}
+	if len(s.st.builtin) > 0 {
+		r.Probe("c19-store-has-object-of-a-built-in-quota")
+	}
+	qn := s.c19Shuffle(sortedNames(stored))
 	for _, n := range qn {
-		f.OnQuotaAdd(s.st.quotas[n].obj())
+		f.OnQuotaAdd(stored[n].obj())
 		r.Event("fork add quota %s", n)
 		if r.Flip(0.1) {
-			f.OnQuotaAdd(s.st.quotas[n].obj())
+			f.OnQuotaAdd(stored[n].obj())
 			r.Probe("c19-extra-duplicate-add")
 		}
 	}
 	// step 2: the AfterPluginInformersSynced hook
 	var objs []interface{}
-	for _, n := range s.c19Shuffle(sortedNames(s.st.quotas)) {
-		objs = append(objs, s.st.quotas[n].obj())
+	for _, n := range s.c19Shuffle(sortedNames(stored)) {
+		objs = append(objs, stored[n].obj())
 	}
 	if err := f.ReplaceQuotas(objs); err != nil {
 		r.Fail("startup", "replace-quotas-failed", "ReplaceQuotas: %v", err)
@@ -447,6 +460,23 @@ func (s *qSim) c19CheckRebuilt(f *Plugin, model map[string]*mAgg, phase string) 
 	oc := phase + "/" + c19QuotaOrder
 	sums := f.groupQuotaManager.GetQuotaSummaries(true)
 	names := sortedSummaryNames(sums)
+	// the limits a restarted scheduler enforces are the ones the stored objects declare (the built-in quotas' too)
+	for _, n := range sortedNames(s.st.builtin) {
+		q := s.st.builtin[n]
+		if sum := sums[n]; sum == nil || !eqRL(fromRL(sum.Max), q.Max) {
+			got := "no such quota"
+			if sum != nil {
+				got = fmtRL(fromRL(sum.Max))
+			}
+			r.Fail("rebuilt-config", "builtin-max/"+oc, "after a restart (%s) the built-in quota %s has max %s, its stored object declares %s", phase, n, got, fmtRL(q.Max))
+		}
+	}
+	for _, n := range sortedNames(s.st.quotas) {
+		q := s.st.quotas[n]
+		if sum := sums[n]; sum != nil && !eqRL(fromRL(sum.Max), q.Max) {
+			r.Fail("rebuilt-config", "max/"+oc, "after a restart (%s) quota %s has max %s, its stored object declares %s", phase, n, fmtRL(fromRL(sum.Max)), fmtRL(q.Max))
+		}
+	}
 	where := map[string]string{}
 	for _, n := range names {
 		keys := make([]string, 0, len(sums[n].PodCache))
